@@ -117,6 +117,19 @@ def generate(repo):
 
     item("tt_min_dim", 256, lambda: int_expr(find_const(emb, "TT_MIN_DIMENSION")))
 
+    def stale_vec():
+        router = strip_comments(read(repo, "tensor_store/src/slab_router.rs"))
+        _, body = find_fn(router, "put", after=r"impl\s+SlabRouter\b")
+        m = re.search(r"KeyClass::Embedding\s*=>\s*\{", body)
+        if not m:
+            raise KeyError("embedding arm of put")
+        arm = body[m.end():body.index("KeyClass::Graph", m.end())]
+        if "self.embeddings.set(entity_id, vec)" not in arm:
+            raise KeyError("embeddings.set call")
+        # both the dimension-mismatch branch and the no-embedding branch delete the slab entry
+        return len(re.findall(r"self\.embeddings\.delete\(entity_id\)", arm)) >= 2
+    item("put_drops_stale_vector", True, stale_vec)
+
     def sparse_rule():
         _, body = find_fn(emb, "from_dense", after=r"impl\s+CompressedEmbedding\b")
         eps = set(re.findall(r"\.abs\(\)\s*>\s*([0-9.eE+-]+)", body))
@@ -167,6 +180,22 @@ def generate(repo):
         return (m.group(1), m.group(2))
     item("id_name_rule", ("ids", "_ids"), id_rule)
 
+    def id_guard():
+        _, body = find_fn(fmt, "looks_like_id_list")
+        ex = re.search(r"let\s+exact\s*=\s*\|v:\s*f32\|\s*v\.is_sign_positive\(\)\s*&&\s*v\.fract\(\)\s*==\s*0\.0\s*&&\s*v\s*<\s*18_446_744_073_709_551_616\.0\s*;", body)
+        if ex:
+            by_name = re.search(r"ends_with\(\"\w+\"\)\s*\{\s*return\s+vector\.iter\(\)\.all\(\|&v\|\s*exact\(v\)\)\s*;", body)
+            first = re.search(r"if\s*!exact\(vector\[0\]\)\s*\{\s*return\s+false", body)
+            chain = re.search(r"if\s+v\s*<\s*prev\s*\|\|\s*!exact\(v\)\s*\{\s*return\s+false", body)
+            if by_name and first and chain:
+                return True
+            raise KeyError("exact guard present but not used in the recognised way")
+        old = re.search(r"ends_with\(\"\w+\"\)\s*\{\s*return\s+true\s*;", body) and re.search(r"v\s*<\s*prev\s*\|\|\s*v\s*<\s*0\.0\s*\|\|\s*v\.fract\(\)\s*!=\s*0\.0", body)
+        if old:
+            return False
+        raise KeyError("looks_like_id_list shape")
+    item("id_exact_guard", True, id_guard)
+
     def emb_rule():
         _, body = find_fn(fmt, "compress_vector")
         m = re.search(r"key\.starts_with\(\"([^\"]+)\"\)\s*\|\|\s*field_name\s*==\s*\"(\w+)\"\s*\|\|\s*field_name\s*==\s*\"(\w+)\"", body)
@@ -193,12 +222,15 @@ def generate(repo):
     text += "Definition gen_sync_before_rename : bool := %s.\n" % ("true" if tsync else "false")
     text += "(* tensor_store/src/embedding_slab.rs CompressedEmbedding::from_dense *)\n"
     text += "Definition gen_tt_min_dim : N := %d.\n" % out["tt_min_dim"]
+    text += "(* slab_router.rs put, embedding arm: a value without a slab-sized _embedding vector drops the key's old slab vector *)\n"
+    text += "Definition gen_put_drops_stale_vector : bool := %s.\n" % ("true" if out["put_drops_stale_vector"] else "false")
     text += "Definition gen_sparse_eps_bits : N := %d.\n" % out["sparse_rule"][0]
     text += "Definition gen_sparse_factor : N := %d.\n" % out["sparse_rule"][1]
     text += "Definition gen_sparse_keep_exact : bool := %s.   (* the sparse form stores every component whose bits are not +0.0 *)\n" % ("true" if out["sparse_rule"][2] else "false")
     text += "(* tensor_store/src/lib.rs save_snapshot_compressed, tensor_compress/src/{format,delta}.rs *)\n"
     text += "Definition gen_bytes_as_len_string : bool := %s.\n" % ("true" if out["bytes_as_len_string"] else "false")
     text += "Definition gen_delta_wrapping : bool := %s.\n" % ("true" if out["delta_wrapping"] else "false")
+    text += "Definition gen_id_exact_guard : bool := %s.   (* looks_like_id_list admits only values the f32->u64->f32 cast keeps *)\n" % ("true" if out["id_exact_guard"] else "false")
     text += "Definition gen_id_name : list N := %s.\n" % bstr(out["id_name_rule"][0])
     text += "Definition gen_id_suffix : list N := %s.\n" % bstr(out["id_name_rule"][1])
     text += "Definition gen_emb_prefix : list N := %s.\n" % bstr(out["embedding_rule"][0])
